@@ -89,7 +89,7 @@ def build_cases(c):
                       "lines": lines, "nops": len(lines)})
 
     thorough = c.tier == "thorough"
-    nsmall, nmed, nbig = (400, 120, 24) if thorough else (120, 36, 6)
+    nsmall, nmed, nbig = (3000, 700, 120) if thorough else (120, 36, 6)
     for i in range(nsmall):
         add(f"small{i}", rng.choice((2, 2, 3, 4)), rng.randrange(2, 8), rng.choice((0, 0, 1, 2, 3)), rng.random() < 0.3,
             rng.choice((1, 2, 3)), rng.choice((0, 50, 400)), yield_=rng.random() < 0.3)
@@ -319,7 +319,8 @@ def main():
                 tbin = c.harness("c09", tsan=True)
                 if tbin:
                     env = {"TSAN_OPTIONS": "halt_on_error=0:exitcode=66:second_deadlock_stack=1"}
-                    sub = [cs for cs in cases if cs["nops"] <= 400][:150] + [cs for cs in cases if cs["nops"] > 400][:6]
+                    nt, nb = (900, 30) if c.tier == "thorough" else (150, 6)
+                    sub = [cs for cs in cases if cs["nops"] <= 400][:nt] + [cs for cs in cases if cs["nops"] > 400][:nb]
                     # (a) nothing of the harness synchronises the threads: hook not registered, no stamps
                     run_cases(c, tbin, model, sub, "tsan-pure", env=env, flags=0, judge=False)
                     # (b) with stamps and hook: linearizability under TSan's scheduling
